@@ -1,5 +1,6 @@
 //! vp_sample — C01, C02, C03, C15 (sample / frame level).
 mod c01;
+mod c02;
 mod table;
 
 fn main() {
@@ -8,6 +9,7 @@ fn main() {
     ctx.self_test("allocator", vp_core::alloc::self_test());
     match ctx.id.as_str() {
         "C01" => c01::run(&mut ctx),
+        "C02" => c02::run(&mut ctx),
         other => {
             eprintln!("vp_sample: unknown property {}", other);
             std::process::exit(2);
